@@ -281,6 +281,9 @@ func (jr *jpegReader) readExif() (err error) {
 		if err = jr.ExifReader(jr.br, exifHeader); err != nil {
 			return err
 		}
+		// The ExifReader consumes the Exif length directly from the reader:
+		// keep the absolute offset in step with it.
+		jr.discarded += exifLength
 		// Discard remaining bytes
 		remain = 0
 	}
@@ -305,8 +308,11 @@ func (jr *jpegReader) readXMP() (err error) {
 		if err = jr.XMPReader(r); err != nil {
 			return err
 		}
-		// Discard remaining bytes
-		remain = int(r.(*io.LimitedReader).N)
+		// What the XMPReader consumed directly from the reader counts towards the
+		// absolute offset; the remaining bytes are discarded below.
+		left := int(r.(*io.LimitedReader).N)
+		jr.discarded += uint32(remain - left)
+		remain = left
 	}
 	// Discard remaining bytes
 	return jr.discard(remain)
